@@ -7,7 +7,7 @@ from paramiko.server import InteractiveQuery
 from vf import keys
 from vf.authkit import (AUTH_FAILED, AUTH_PARTIALLY_SUCCESSFUL, AUTH_SUCCESSFUL, MSG_DISCONNECT,
                         MSG_USERAUTH_FAILURE, MSG_USERAUTH_INFO_RESPONSE, MSG_USERAUTH_REQUEST, MSG_USERAUTH_SUCCESS,
-                        FenceTimeout, Sess, episodes, parse_userauth_request, res_name, session_blob, sstr, u32)
+                        FenceTimeout, Sess, episodes, parse_userauth_request, res_name, session_blob, sstr, started, u32)
 
 META = dict(
     title="one username per connection; ten failures maximum",
@@ -244,11 +244,11 @@ def body_for(rng, sess, st):
 
 
 def run_session(ctx, rng, desc):
-    sess = Sess(rng, policy=build_policy(desc["table"]))
+    sess = started(lambda: Sess(rng, policy=build_policy(desc["table"])), lambda s: s.start(auth=False))
+    if sess is None:
+        ctx.inconclusive("handshake failed three times")
+        return
     try:
-        if not sess.start(auth=False):
-            ctx.inconclusive("handshake failed")
-            return
         _, st = sess.service_request()
         if st != "ok":
             ctx.inconclusive("victim ended on SERVICE_REQUEST")
@@ -278,7 +278,7 @@ def run_session(ctx, rng, desc):
 
 def run(ctx):
     rng = ctx.rng
-    n = ctx.pick(320, 4000)
+    n = ctx.pick(256, 4000)
     deadline = ctx.deadline(150, 1200)
     modes = ["long", "long", "switch", "switch", "mixed", "service"]
     shown = 0
